@@ -16,7 +16,7 @@ CLAUSES = {
     "packed": "packed storage (scale_factor; offset for scalars) gives the scaled values",
 }
 BOUNDS = {
-    "quick": "global 7x6 rho grid, N=2 levels, legal subgrids {full, [1,6,1,5], [2,6,1,4], [1,5,2,5]}, 1 particle anywhere in the valid region incl. cell edges, any depth; all node values, masks, level depths, scale factors symbolic",
+    "quick": "global 7x6 rho grid, N=2 levels (N=3 on one subgrid), legal subgrids {full, [1,6,1,5], [2,6,1,4], [1,5,2,5]}, 1 particle anywhere in the valid region incl. cell edges, any depth; all node values, masks, level depths, scale factors symbolic",
     "thorough": "also N=3 and N=1 levels, 2 particles, subgrid given with negative indices",
 }
 ASSUMES = ["level depths of every column strictly increasing and negative (ROMS layout; C12 derives them)", "add_offset = 0 for u, v as the source documents",
@@ -33,6 +33,8 @@ def scenarios(tier):
     for N in ((2,) if q else (1, 2, 3)):
         for sg in subs:
             out.append(dict(name=f"interp-N{N}-sub{'full' if sg is None else '_'.join(map(str, sg))}", fn="interp", params=dict(N=N, sub=sg, packed=False), cost=20))
+    if q:
+        out.append(dict(name="interp-N3-sub2_6_1_4", fn="interp", params=dict(N=3, sub=[2, 6, 1, 4], packed=False), cost=30))
     out.append(dict(name="packed", fn="interp", params=dict(N=2, sub=[1, 6, 1, 5], packed=True), cost=20))
     out.append(dict(name="linear", fn="linear", params=dict(N=2, sub=[1, 6, 1, 5]), cost=10))
     return out
